@@ -86,8 +86,23 @@ def count_steps(engine, text):
     return n[0] + 1
 
 
-def run_schedule(engine, texts, schedule, cur):
-    s = sched.Scheduler([(lambda t=t: treeutil.parse_outcome(engine, t)) for t in texts])
+STYLES = ['plain', 'options', 'copy']
+
+
+def styled(engine, style):
+    """the ways a host reaches one engine's parser: engine(text), engine(text, options=...) and a
+    copy() of the engine - all of them share the engine's lexer and parser objects"""
+    if style == 'options':
+        return lambda text: engine(text, options={'yaql.limitIterators': 1000})
+    if style == 'copy':
+        return engine.copy({'yaql.memoryQuota': 100000})
+    return engine
+
+
+def run_schedule(engine, texts, schedule, cur, styles=None):
+    styles = styles or ['plain'] * len(texts)
+    s = sched.Scheduler([(lambda t=t, st=st: treeutil.parse_outcome(styled(engine, st), t))
+                         for t, st in zip(texts, styles)])
     cur[0] = s
     try:
         results = s.run(schedule)
@@ -151,31 +166,31 @@ def run(env, res):
         engine = make_engine()
         steps = {t: count_steps(engine, t) for t in pool}
 
-        def check_case(texts, schedule, exhaustive):
-            s, results = run_schedule(engine, texts, schedule, cur)
+        def check_case(texts, schedule, exhaustive, styles=None):
+            s, results = run_schedule(engine, texts, schedule, cur, styles)
             switches = sum(1 for a, b in zip(s.trace, s.trace[1:]) if a != b) if hasattr(s, 'trace') else 0
-            res.case(('s', tuple(texts), tuple(schedule)), nontrivial=len(set(texts)) > 1 and switches >= 2,
-                     sample=dict(kind='schedule', texts=texts, schedule=schedule)
+            res.case(('s', tuple(texts), tuple(schedule), tuple(styles or ())), nontrivial=len(set(texts)) > 1 and switches >= 2,
+                     sample=dict(kind='schedule', texts=texts, schedule=schedule, styles=styles)
                      if (stats['schedules_exhaustive'] + stats['schedules_random']) < 2 else None)
             stats['schedules_exhaustive' if exhaustive else 'schedules_random'] += 1
             if s.hung:
                 report('oracle', 'hang', 'threads did not finish under schedule %r for texts %r' % (schedule, texts),
-                       dict(kind='schedule', texts=texts, schedule=schedule))
+                       dict(kind='schedule', texts=texts, schedule=schedule, styles=styles))
                 return False
             for i, t in enumerate(texts):
                 want = ('ret', fresh(t))
                 if results[i] != want:
                     report('oracle', 'interference',
                            'thread %d parsing %r under schedule %r (other texts %r) got %r; alone on a fresh engine: %r'
-                           % (i, t, s.trace, texts, results[i], fresh(t)),
-                           dict(kind='schedule', texts=texts, schedule=s.trace))
+                           % (i, t, s.trace, texts, results[i], fresh(t)) + (' call styles %r' % (styles,) if styles else ''),
+                           dict(kind='schedule', texts=texts, schedule=s.trace, styles=styles))
                     return False
             return True
 
         if cases is not None:
             for c in cases:
                 if c.get('kind') == 'schedule':
-                    check_case(c['texts'], c['schedule'], False)
+                    check_case(c['texts'], c['schedule'], False, c.get('styles'))
         elif not res.failures:
             # exhaustive: 2 threads x short texts
             pairs = list(itertools.product(SHORT, SHORT))
@@ -187,9 +202,11 @@ def run(env, res):
                     break
                 if steps[a] + steps[b] > (10 if tier == 'quick' else 12):
                     continue
+                # all call-style pairs rotate over the text pairs (every style pair is hit many times)
+                st = [STYLES[done % 3], STYLES[(done // 3) % 3]]
                 for schedule in sched.interleavings([steps[a], steps[b]]):
                     done += 1
-                    if not check_case([a, b], schedule, True):
+                    if not check_case([a, b], schedule, True, st):
                         break
             # exhaustive: 3 threads x very short texts
             triples = [t for t in itertools.product(SHORT, repeat=3) if sum(steps[x] for x in t) <= (8 if tier == 'quick' else 9)]
@@ -208,9 +225,42 @@ def run(env, res):
                 texts = [rng.choice(pool) for _ in range(k)]
                 schedule = [i for i, t in enumerate(texts) for _ in range(steps[t])]
                 rng.shuffle(schedule)
-                check_case(texts, schedule, False)
+                check_case(texts, schedule, False, [rng.choice(STYLES) for _ in texts])
     finally:
         uninstall()
+
+    # ---------------------------------------------------------------- (a') histories through the module-level yaql.eval cache
+    if cases is None and not res.failures:
+        import yaql
+        ctx0 = yaql.create_context()
+        lits = ["'a b'", "'a  b'", "'a\tb'", '"a b"', "'A b'", "' a b'", "`a  b`", "'a b '", "'ab'"]
+        forms = ['%s', '%s + %s', '[%s, %s]', '%s = %s', '  %s', '%s  ', 'len(%s)', '(%s)', '%s+%s', '[ %s,%s ]']
+        variants = []
+        for f in forms:
+            k = f.count('%s')
+            for _ in range(4):
+                variants.append(f % tuple(rng.choice(lits) for _ in range(k)))
+        variants += ['1 + 2', '1  +  2', '1+2', '$', ' $ ', '$.a', '$ .a', '1 + ', '1  + ', "'x", "'x '"]
+        for _ in range(30 if tier == 'quick' else 600):
+            seq = [rng.choice(variants) for _ in range(rng.randrange(2, 10))]
+            stats['histories'] += 1
+            res.case(('e', tuple(seq)), nontrivial=len(set(seq)) > 1)
+            for i, t in enumerate(seq):
+                def ev(f):
+                    try:
+                        return ['val', repr(f())]
+                    except Exception as e:  # noqa
+                        return ['err', type(e).__name__, str(e)]
+                got = ev(lambda: yaql.eval(t, data={'a': 1}))
+                want = ev(lambda: make_engine()(t).evaluate(data={'a': 1}, context=ctx0.create_child_context()))
+                stats['eval_cache_parses'] += 1
+                if got != want:
+                    report('oracle', 'history-dependence',
+                           'yaql.eval(%r) after %r returned %r; a fresh engine gives %r' % (t, seq[:i], got, want),
+                           dict(kind='eval-history', texts=seq[:i + 1]))
+                    break
+            if res.failures:
+                break
 
     # ---------------------------------------------------------------- (c) free-running stress (supporting)
     if cases is None and not res.failures:
@@ -245,7 +295,7 @@ def run(env, res):
             for t in ths:
                 t.join()
             stats['stress_parses'] = nthreads * loops
-            stats['eval_cache_parses'] = nthreads * loops
+            stats['eval_cache_parses'] += nthreads * loops
             if bad:
                 t, o = bad[0]
                 report('oracle', 'interference', 'free-running threads: parse of %r returned %r, fresh engine %r' % (
